@@ -353,6 +353,10 @@ def correspondence(pid, tier, seed, res, lines_extra=None):
     lines += corpus
     if genf:
         lines += genf(rng, tier)
+    if pid in ("C05", "C08", "C16"):
+        # the exported SetCoefPtr, called with a fresh copy of the element, must behave exactly like SetCoef: a third of the
+        # generated `setcoef` operations go through it (protocol operation `setcoefp`, same model operation)
+        lines = [re.sub(r"\| setcoef ", lambda m_: "| setcoefp " if rng.random() < 0.35 else "| setcoef ", l) if l.startswith("hist ") else l for l in lines]
     n_exh = 0
     if tier == "thorough" and pid in getattr(G, "EXHAUSTIVE", {}):
         ex = G.EXHAUSTIVE[pid](rng)
